@@ -103,7 +103,8 @@ class Configuration(object):
             except (AttributeError, TypeError, ValueError, OverflowError, IkeSaError) as ex:
                 # a value of the wrong type or out of range (a list where a mapping is expected, a non-numeric
                 # lifetime, a key that is not PEM, ...): reject the configuration, do not crash
-                raise ConfigurationError(f'Invalid value in connection "{connection_name}": {ex!r}')
+                # (not repr(ex): a UnicodeError carries the whole offending string, which may be a pre-shared key)
+                raise ConfigurationError(f'Invalid value in connection "{connection_name}": {type(ex).__name__}: {ex}')
 
     def _load_ike_conf(self, name, conf_dict, my_addresses):
         encr = self._load_crypto_algs('encr', conf_dict.get('encr', ['aes256']), _encr_name_to_transform)
